@@ -117,6 +117,15 @@ func c11(c *ctx) {
 		r.Check(okTx, "R2/ApplyBlock/successful-txs-only", c.p.Pos(applyBlock.Pos()), "b.Transactions = r.Txs", "ApplyBlock no longer replaces the block's transactions by the successfully applied ones (r.Txs): a proposer's block would carry failed transactions")
 	}
 
+	// the index stamped on a transaction result is the number of transactions already included, which is the same on the
+	// proposer (who drops failing transactions) and on the replica (who sees only the included ones)
+	if applyTx := c.fn("fsm.(*StateMachine).ApplyTransaction"); applyTx != nil {
+		for _, cs := range callsIn(applyTxs, false, applyTx) {
+			p := c.p.path(argOf(cs, 0))
+			r.Check(p == "$3.Count", "R2/ApplyTransactions/result-index", c.p.Pos(cs.Pos()), "TxResult.Index = number of included transactions (r.Count)", "ApplyTransaction is given index "+p+" instead of the count of included transactions: a proposer that dropped a failing transaction stamps indices no replica can reproduce (different transaction root)")
+		}
+	}
+
 	// ------------------------------------------------------------------ R3
 	r.Rule("R3", "MPT", "replica acceptance: ApplyAndValidateBlock returns a result only after ApplyBlock ok, len(results.Failed)==0 and bytes.Equal(recomputed hash, candidate hash); ValidateProposal only after ApplyAndValidateBlock ok and qc.Results.Equals(recomputed results)", 2)
 	bytesEqual := lookupStd(c.p, "bytes", "Equal")
